@@ -15,6 +15,8 @@ CONSTANTS
   Weak_NoParamsHashCompare = FALSE
   Weak_ValsNotHashed = FALSE
   Weak_BackwardsTargetNotRechecked = TRUE
+  Weak_BackwardsCommitUnverified = FALSE
+  CommitBlockIDValidated = FALSE
   Weak_SearchProofFromCachedBlock = FALSE
 INIT CaseInit
 NEXT CaseNext
